@@ -25,7 +25,11 @@ def is_sub(types, a, b):
         a = types[a]
 
 
-EPS = 1e-4  # the library's documented tolerance for = <= >= (numbers generated are never that close unless equal)
+import os
+
+# the library's documented tolerance for = <= >=, and its documented switch: the environment variable EPSILON, read
+# when the process starts (one worker group of every check runs with EPSILON=0: exact comparisons)
+EPS = float(os.environ.get("EPSILON", 1e-4))
 
 
 def ev(e, S, b):
